@@ -695,4 +695,254 @@ theorem lookup_hit (s : State) (c : Cls) (k : Id) (h : Handle) (hi : CInv s)
       simp only [hdc', Bool.false_eq_true, if_false, hW, hd]
 
 
+
+theorem inv_alloc (s : State) (c : Cls) (k : Id) (ex : Bool) (hi : CInv s) :
+    CInvX (alloc s c k ex) (some s.n) := by
+  obtain ⟨h1, h2, h3, h4, h5, h6, h7, h8⟩ := hi
+  constructor
+  · intro c' e he
+    have := h1 c' e he
+    simp only [alloc, upd]
+    have hlt := this.1
+    have hne : e.2 ≠ s.n := Nat.ne_of_lt hlt
+    simp only [hne, if_false]
+    refine ⟨Nat.lt_succ_of_lt hlt, this.2.1, this.2.2.1, this.2.2.2.1, this.2.2.2.2.1, ?_⟩
+    simp only [ne_eq, Option.some.injEq]; exact hne
+  · exact h2
+  · exact h3
+  · exact h4
+  · intro c' e he
+    have := h1 c' e (Or.inl he)
+    have hlt := this.1
+    have hne : e.2 ≠ s.n := Nat.ne_of_lt hlt
+    simp only [alloc, upd, hne, if_false]; exact h5 c' e he
+  · exact h6
+  · intro h hn hx hh ho
+    simp only [alloc] at hn
+    have hne : h ≠ s.n := by simpa using hx
+    simp only [alloc, upd, hne, if_false] at hh ho ⊢
+    exact h7 h (by omega) (by simp) hh ho
+  · intro h hn hh
+    simp only [alloc, upd] at hn hh ⊢
+    split
+    · rfl
+    · rename_i hne; simp only [hne, if_false] at hh; exact h8 h (by omega) hh
+
+/-- registering the fresh handle `h` (put / created) -/
+theorem inv_insert_new (s : State) (c : Cls) (k : Id) (h : Handle) (hi : CInvX s (some h))
+    (hn : h < s.n) (oc : (s.obj h).cls = c) (ok : (s.obj h).id = k) (od : (s.obj h).dead = false)
+    (oo : (s.obj h).obsolete = false) (hr : k ∈ s.rows c)
+    (hs : ∀ v, (k, v) ∉ (s.fac c).strong)
+    (hw : ∀ v, (k, v) ∈ (s.fac c).weak → s.cfg.doCache = false ∧ (s.obj v).dead = true) :
+    CInv (insertEntry s c k h) := by
+  obtain ⟨h1, h2, h3, h4, h5, h6, h7, h8⟩ := hi
+  unfold insertEntry
+  by_cases hdc : s.cfg.doCache = true
+  · simp only [hdc, if_true]
+    have hw' : ∀ v, (k, v) ∉ (s.fac c).weak := fun v hv => by have := (hw v hv).1; rw [hdc] at this; cases this
+    constructor
+    · intro c' e he
+      have := h1 c' e
+      simp only [Ent, setFac, upd] at he this ⊢
+      split at he
+      · subst_vars
+        simp only [mem_aset] at he
+        rcases he with (he | he) | he
+        · have := this (Or.inl he.1); simp_all
+        · rw [he]; simp_all
+        · have := this (Or.inr he); simp_all
+      · have := this he; simp_all
+    · intro c'; have := h2 c'; simp only [setFac, upd]; split
+      · subst_vars; exact fun_aset this
+      · exact this
+    · intro c'; have := h3 c'; simp only [setFac, upd]; split <;> simp_all
+    · intro c' k' v1 v2; have := h4 c' k' v1 v2; simp only [setFac, upd]; split
+      · subst_vars
+        simp only [mem_aset]
+        rintro (a | a) b
+        · exact this a.1 b
+        · simp only [Prod.mk.injEq] at a; rw [a.1] at b; exact hw' v2 b
+      · exact this
+    · intro c' e; have := h5 c' e; simp only [setFac, upd]; split
+      · subst_vars
+        simp only [mem_aset]
+        rintro (a | a)
+        · exact this a.1
+        · rw [a]; exact od
+      · exact this
+    · intro hd'; simp only [setFac] at hd'; rw [hdc] at hd'; cases hd'
+    · intro h' hn' _ hh ho
+      simp only [setFac] at hn'
+      simp only [Ent, setFac, upd] at hh ho ⊢
+      by_cases hx : h' = h
+      · subst hx; rw [oc, ok]; simp only [if_true, mem_aset]; left; right; trivial
+      · have a := h7 h' hn' (by simpa using hx) hh ho
+        simp only [Ent] at a
+        split
+        · rename_i hc; rw [hc] at a
+          simp only [mem_aset]
+          rcases a with a | a
+          · left; left; exact ⟨a, fun hk => hs h' (by rw [← hk]; exact a)⟩
+          · right; exact a
+        · exact a
+    · exact h8
+  · have hdc' : s.cfg.doCache = false := by cases h' : s.cfg.doCache <;> simp_all
+    simp only [hdc', Bool.false_eq_true, if_false]
+    constructor
+    · intro c' e he
+      have := h1 c' e
+      simp only [Ent, setFac, upd] at he this ⊢
+      split at he
+      · subst_vars
+        simp only [mem_aset] at he
+        rcases he with he | he | he
+        · have := this (Or.inl he); simp_all
+        · have := this (Or.inr he.1); simp_all
+        · rw [he]; simp_all
+      · have := this he; simp_all
+    · intro c'; have := h2 c'; simp only [setFac, upd]; split <;> simp_all
+    · intro c'; have := h3 c'; simp only [setFac, upd]; split
+      · subst_vars; exact fun_aset this
+      · exact this
+    · intro c' k' v1 v2 a
+      have := h6 hdc' c'
+      simp only [setFac, upd] at a
+      split at a <;> simp_all
+    · intro c' e a
+      have := h6 hdc' c'
+      simp only [setFac, upd] at a
+      split at a <;> simp_all
+    · intro _ c'; have := h6 hdc' c'; simp only [setFac, upd]; split <;> simp_all
+    · intro h' hn' _ hh ho
+      simp only [setFac] at hn'
+      simp only [Ent, setFac, upd] at hh ho ⊢
+      by_cases hx : h' = h
+      · subst hx; rw [oc, ok]; simp only [if_true, mem_aset]; right; right; trivial
+      · have a := h7 h' hn' (by simpa using hx) hh ho
+        simp only [Ent] at a
+        split
+        · rename_i hc; rw [hc] at a
+          simp only [mem_aset]
+          rcases a with a | a
+          · left; exact a
+          · right; left; refine ⟨a, fun hk => ?_⟩
+            rw [hk] at a
+            have := (hw h' a).2
+            rw [h8 h' hn' hh] at this; cases this
+        · exact a
+    · exact h8
+
+
+
+/-- what every step leaves alone: rows (unless it is create/destroy), identities of existing objects,
+    and the application's references -/
+structure Frame (s s' : State) : Prop where
+  rows : s'.rows = s.rows
+  cfg : s'.cfg = s.cfg
+  n : s.n ≤ s'.n
+  obj : ∀ h, h < s.n → (s'.obj h).cls = (s.obj h).cls ∧ (s'.obj h).id = (s.obj h).id ∧
+    (s'.obj h).obsolete = (s.obj h).obsolete ∧ ((s.obj h).held = true → (s'.obj h).held = true)
+
+theorem Frame.refl (s : State) : Frame s s := ⟨rfl, rfl, Nat.le_refl _, fun _ _ => ⟨rfl, rfl, rfl, id⟩⟩
+
+theorem Frame.trans {a b c : State} (h1 : Frame a b) (h2 : Frame b c) : Frame a c := by
+  refine ⟨h2.rows.trans h1.rows, h2.cfg.trans h1.cfg, Nat.le_trans h1.n h2.n, ?_⟩
+  intro h hn
+  obtain ⟨a1, a2, a3, a4⟩ := h1.obj h hn
+  obtain ⟨b1, b2, b3, b4⟩ := h2.obj h (Nat.lt_of_lt_of_le hn h1.n)
+  exact ⟨b1.trans a1, b2.trans a2, b3.trans a3, fun x => b4 (a4 x)⟩
+
+/-- a handle an access path may hand to the application -/
+def Good (s : State) (c : Cls) (k : Id) (h : Handle) : Prop :=
+  h < s.n ∧ (s.obj h).cls = c ∧ (s.obj h).id = k ∧ (s.obj h).held = true ∧ (s.obj h).obsolete = false ∧
+  k ∈ s.rows c
+
+theorem Good.frame {s s' : State} {c k h} (g : Good s c k h) (f : Frame s s') : Good s' c k h := by
+  obtain ⟨g1, g2, g3, g4, g5, g6⟩ := g
+  obtain ⟨a1, a2, a3, a4⟩ := f.obj h g1
+  exact ⟨Nat.lt_of_lt_of_le g1 f.n, a1.trans g2, a2.trans g3, a4 g4, a3.trans g5, by rw [f.rows]; exact g6⟩
+
+theorem insertEntry_fields (s : State) (c : Cls) (k : Id) (h : Handle) :
+    (insertEntry s c k h).rows = s.rows ∧ (insertEntry s c k h).cfg = s.cfg ∧ (insertEntry s c k h).n = s.n ∧
+    (insertEntry s c k h).obj = s.obj ∧ (insertEntry s c k h).pickles = s.pickles ∧
+    (insertEntry s c k h).maxId = s.maxId := by
+  unfold insertEntry; split <;> simp [setFac]
+
+theorem getObj_spec (s : State) (c : Cls) (k : Id) (sel : Bool) (hi : CInv s) :
+    CInv (getObj s c k sel).1 ∧ Frame s (getObj s c k sel).1 ∧
+    (getObj s c k sel).1.pickles = s.pickles ∧
+    (∀ h, (getObj s c k sel).2 = some h → Good (getObj s c k sel).1 c k h) ∧
+    ((getObj s c k sel).2 = none → k ∉ s.rows c) := by
+  obtain ⟨t1, t2, t3, t4, t5, t6, t7⟩ := tick_facts s c
+  have hi0 := inv_tick s c hi
+  obtain ⟨l1, l2, l3, l4, l5, l6, l7, l8, l9, l10⟩ := lookup_spec (tick s c) c k hi0
+  unfold getObj
+  generalize hr : lookupCache (tick s c) c k = r at l1 l2 l3 l4 l5 l6 l7 l8 l9 l10
+  obtain ⟨s1, res⟩ := r
+  simp only at l1 l2 l3 l4 l5 l6 l7 l8 l9 l10
+  have fr1 : Frame s s1 := by
+    refine ⟨l3.trans t2, l5.trans t3, by rw [l2, t1]; exact Nat.le_refl _, ?_⟩
+    intro h _
+    rw [l4]
+    obtain ⟨a1, a2, a3, a4, _, _⟩ := t7 h
+    exact ⟨a1, a2, a4, fun x => a3.trans x⟩
+  cases res with
+  | some h =>
+    simp only
+    obtain ⟨e1, e2⟩ := l9 h rfl
+    obtain ⟨b1, b2, b3, b4, b5, _⟩ := l1.ent c (k, h) e1
+    simp only at b1 b2 b3 b4 b5
+    have hi2 : CInv (setObj s1 h { s1.obj h with held := true, expired := if sel = true then false else (s1.obj h).expired }) := by
+      refine inv_setObj s1 h { s1.obj h with held := true, expired := if sel = true then false else (s1.obj h).expired } l1 rfl rfl rfl rfl ?_
+      intro _; right
+      rw [l4]
+      refine ⟨e2, ?_⟩
+      rw [← l4, b2, b3]; exact e1
+    refine ⟨hi2, ?_, l6.trans t4, ?_, by simp⟩
+    · refine Frame.trans fr1 ⟨rfl, rfl, Nat.le_refl _, ?_⟩
+      intro h' _
+      simp only [setObj, upd]
+      split
+      · subst_vars; exact ⟨rfl, rfl, rfl, fun _ => rfl⟩
+      · exact ⟨rfl, rfl, rfl, id⟩
+    · intro h' hh; simp only [Option.some.injEq] at hh; subst hh
+      simp only [Good, setObj, upd, if_true]
+      exact ⟨b1, b2, b3, trivial, b5, b4⟩
+  | none =>
+    simp only
+    have hno := l10 rfl
+    by_cases hrow : (s1.rows c).contains k = true
+    · simp only [hrow, if_true]
+      have hrow' : k ∈ s1.rows c := by simpa using hrow
+      have hi2 : CInv (insertEntry (alloc s1 c k false) c k s1.n) := by
+        apply inv_insert_new (alloc s1 c k false) c k s1.n (inv_alloc s1 c k false l1)
+        · simp [alloc]
+        · simp [alloc, upd]
+        · simp [alloc, upd]
+        · simp [alloc, upd]
+        · simp [alloc, upd]
+        · simpa [alloc] using hrow'
+        · intro v hv; exact hno v (Or.inl hv)
+        · intro v hv; exact absurd (Or.inr hv) (hno v)
+      obtain ⟨i1, i2, i3, i4, i5, i6⟩ := insertEntry_fields (alloc s1 c k false) c k s1.n
+      refine ⟨hi2, ?_, ?_, ?_, by simp⟩
+      · refine Frame.trans fr1 ⟨?_, ?_, ?_, ?_⟩
+        · rw [i1]; rfl
+        · rw [i2]; rfl
+        · rw [i3]; simp [alloc]
+        · intro h' hn'
+          have hne : h' ≠ s1.n := Nat.ne_of_lt hn'
+          rw [i4]; simp [alloc, upd, hne]
+      · rw [i5]; exact l6.trans t4
+      · intro h' hh; simp only [Option.some.injEq] at hh; subst hh
+        simp only [Good]
+        rw [i1, i3, i4]
+        simp [alloc, upd, hrow']
+    · simp only [hrow, Bool.false_eq_true, if_false]
+      refine ⟨l1, fr1, l6.trans t4, by simp, ?_⟩
+      intro _ hk
+      apply hrow
+      rw [fr1.rows]; simpa using hk
+
+
 end SqlObjVerif.Cache
